@@ -191,7 +191,7 @@ def step (line : String) : String :=
         let r := setMultiple before.pos (hist.getD i [])
         let surv := survivors ((hist.getD i []).map Prod.fst) r.2
         s!"{(collectorStats surv).1}/{(collectorStats surv).2}/{r.2.length}/{fmtIDs surv}"
-      s!"ok steps={fmtList id steps ";"} from={st.info.ifrom} to={st.info.ito} total={st.info.docsTotal} ids={fmtIDs st.ids} isect={matrix ps (FracInfo.isIntersecting? st.info)}"
+      s!"ok steps={fmtList id steps ";"} from={st.info.ifrom} to={st.info.ito} total={st.info.docsTotal} ids={fmtIDs st.ids} lids={fmtIDs st.lids} isect={matrix ps (FracInfo.isIntersecting? st.info)}"
     | _, _, _ => "bad-op"
   | ["ingeststeps", hist] =>
     -- per bulk of the history: `MinMID/MaxMID/DocsCounter/collector IDs` as handed to UpdateStats / AppendIDs
